@@ -213,7 +213,7 @@ def model_check(chk, pid):
         if must_hold:
             if r.violation:
                 raise core.ToolError("%s: the specification violates its own properties:\n%s" % (cfg, r.violation[:2000]))
-            dead = [a for a, n in r.coverage.items() if n == 0 and a not in ("CLateSub",) and not (("calls" in cfg) and a.startswith("S")) and
+            dead = [a for a, n in r.coverage.items() if n == 0 and a not in ("CLateSub", "Next", "Init", "Spec", "WNext", "WInit") and not (("calls" in cfg) and a.startswith("S")) and
                     not (("calls" in cfg) and a == "PeerSignal") and not (("streams" in cfg) and a in ("CStart", "CLock", "CWrite", "CPoll", "CDrop", "CStartAfterFault", "PeerAnswer", "PeerStray")) and
                     not ("_q" in cfg and a == "PeerStray")]
             if dead:
